@@ -98,6 +98,17 @@ class Episode:
         if op[0] == "S":
             nrow = len(o.trajectory)
             p = self.new_pva(self.times[nrow - 1], op[1])
+            how = op[2] if len(op) > 2 else "new"
+            if how != "new":
+                q = o.get_pva().copy()
+                if how == "keepatt":          # a position / velocity correction: attitude exactly as reported
+                    for c in ('lat', 'lon', 'alt', 'VN', 'VE'):
+                        q[c] = p[c]
+                if not op[1]:
+                    q['VD'] = p['VD']         # supplied VD non-zero
+                elif not self.alt:
+                    q['VD'] = 0.0
+                p = self.pd.Series(q[COLS].values, index=COLS, name=p.name)
             b = max(self.bases) + 1
             self.bases[b] = p
             self.base_row[b] = nrow
@@ -240,8 +251,9 @@ def record_episode(m, task):
             call = ("P", i, sc)
         elif u < 0.85 and len(baserow) < 6:
             vdz = bool(rng.rand() < 0.5)
-            op = dict(op="S", vdz=vdz)
-            call = ("S", vdz)
+            how = str(rng.choice(["new", "keepatt", "same"]))
+            op = dict(op="S", vdz=vdz, how=how)
+            call = ("S", vdz, how)
         else:
             op = dict(op="G")
             call = ("G",)
